@@ -464,6 +464,19 @@ def _attr_violations(u, only=None):
     return out
 
 
+def _reporter(u, fn_):
+    """a function that does nothing but hand a static object's value out: `return object;` (casts, a member or an element
+    of it) - no parameter, no other operand takes part"""
+    b_ = [c for c in cast.inner(u.functions[fn_]) if cast.kind(c) == 'CompoundStmt']
+    st_ = [c for c in cast.inner(b_[0])] if b_ else []
+    if len(st_) != 1 or cast.kind(st_[0]) != 'ReturnStmt' or not cast.inner(st_[0]):
+        return False
+    e = cast.strip_all_casts(cast.inner(st_[0])[0])
+    while cast.kind(e) in ('MemberExpr', 'ParenExpr', 'ImplicitCastExpr', 'CStyleCastExpr'):
+        e = cast.strip_all_casts(e['inner'][0])
+    return cast.kind(e) == 'DeclRefExpr' and e.get('referencedDecl', {}).get('kind') == 'VarDecl'
+
+
 def run(ck, pid):
     rule = pid + '.s'
     rels = UNITS.get(pid)
@@ -487,6 +500,8 @@ def run(ck, pid):
                     otypes[x_['id']] = cast.qual_type(x_)
         found = {}
         reads = {}
+        fillers = {}       # object -> functions that fill it with data that is no call's
+        updaters = set()   # (object, function) pairs where the write is an update in place (a count), not a fill
         pending = []       # writes that carry no data of a call but whose happening depends on one: state if somebody reads it
         for fn, fd in sorted(u.functions.items()):
             if not _in_repo(fd):
@@ -501,8 +516,12 @@ def run(ck, pid):
                     reads.setdefault(did, []).append((fn, cast.where(node)))
                 elif kind_ == 'write' and detail:
                     found.setdefault((did, fn), ('%s assigns it data derived from its arguments' % fn, cast.where(node)))
+                elif kind_ == 'write':
+                    fillers.setdefault(did, set()).add(fn)
                 elif kind_ in ('update', 'mark'):
                     pending.append((did, fn, kind_, detail, cast.where(node)))
+                    if kind_ == 'update':
+                        updaters.add((did, fn))
                 elif kind_ == 'expose':
                     # handing out the address matters when something may store through it: scalar memory (octets, words)
                     # always may; a record only if this code stores through pointers to that record type somewhere
@@ -512,12 +531,40 @@ def run(ck, pid):
                             reads.setdefault(did, []).append((fn, cast.where(node)))
                             continue
                     found.setdefault((did, fn), (detail, cast.where(node)))
-        def reporter(fn_):
-            # a function that does nothing but hand the value out (`return counter;`) reports a statistic; it is not an
-            # operation whose behaviour the value steers
-            b_ = [c for c in cast.inner(u.functions[fn_]) if cast.kind(c) == 'CompoundStmt']
-            st_ = [c for c in cast.inner(b_[0])] if b_ else []
-            return len(st_) == 1 and cast.kind(st_[0]) == 'ReturnStmt'
+        # lazily filled objects: a static object the unit's code fills at run time with data that is no call's (a table
+        # computed on first use) gives every call the same result - PROVIDED every function that reads it has made sure it
+        # is filled.  A public function that reads it (directly or through internal helpers) without calling the function
+        # that fills it works only after some other call has run: what it answers depends on the calls made before.
+        callees = {}
+        for fn_, fd_ in u.functions.items():
+            callees[fn_] = {cast.callee_name(c) for c in cast.walk(fd_) if cast.kind(c) == 'CallExpr' and cast.callee_name(c)}
+        for did in sorted(fillers, key=lambda d: objs[d][0]):
+            S = {f_ for f_ in fillers[did] if (did, f_) not in updaters}
+            if not S:
+                continue
+            readers_ = {r[0] for r in reads.get(did, [])} - S - {r[0] for r in reads.get(did, []) if _reporter(u, r[0])}
+            if not readers_:
+                continue
+
+            def covered(f_, seen):
+                if f_ in S or callees.get(f_, set()) & S:
+                    return None
+                fd_ = u.functions.get(f_)
+                if fd_ is not None and fd_.get('storageClass') == 'static' and f_ not in seen:
+                    callers = [g for g, cs_ in callees.items() if f_ in cs_ and g != f_]
+                    if callers:
+                        for g in callers:
+                            w = covered(g, seen | {f_})
+                            if w:
+                                return w
+                        return None
+                return f_
+            for f_ in sorted(readers_):
+                w = covered(f_, set())
+                if w and (did, w) not in found:
+                    found[(did, w)] = ('%s reads it%s without making sure it has been filled (%s fills it at run time): the function works only once some other call has done '
+                                       'so - its answer depends on the calls made before it' % (w, '' if w == f_ else ' through ' + f_, ', '.join(sorted(S))), cast.where(u.functions[w]))
+        reporter = lambda fn_: _reporter(u, fn_)
         for did, fn, kind_, detail, where in pending:
             if not [r for r in reads.get(did, []) if not reporter(r[0])]:
                 continue            # written, never consulted: a statistic, not state the operations depend on
